@@ -78,6 +78,47 @@ func mutate(r *rand.Rand, text string, pool []string) string {
 	return strings.Join(toks, " ")
 }
 
+// decorations are optional substatements that are valid under many statements; which
+// of them a keyword takes is listed in decorable. Resolver code paths that copy or
+// annotate entries (when, if-feature, status, reference, extensions) only run when these
+// are present, so every hazard is also tried in their company.
+var decorations = map[byte]string{'w': `when "x";`, 'f': `if-feature feat;`, 's': `status deprecated;`, 'r': `reference "r";`, 'd': `description "d";`, 'm': `must "x";`, 'e': `x:ext "e";`, 'c': `config false;`, 'p': `presence "p";`}
+var decorable = map[string]string{"uses": "wfsrde", "leaf": "wfsrdmec", "leaf-list": "wfsrdmec", "container": "wfsrdmecp", "list": "wfsrdmec", "choice": "wfsrdec", "case": "wfsrde", "anyxml": "wfsrdmec", "anydata": "wfsrdmec", "augment": "wfsrde", "rpc": "fsrde", "action": "fsrde", "notification": "fsrdme", "grouping": "srde", "typedef": "srde", "identity": "fsrde", "input": "me", "output": "me", "deviation": "rde", "import": "rde", "include": "rde", "enum": "fsrde", "bit": "fsrde", "refine": "fde", "feature": "fsrde", "type": "e", "module": "e", "submodule": "e"}
+
+// decorate gives about one in three decorable statements one to three extra substatements.
+func decorate(r *rand.Rand, text string) string {
+	toks := tokRe.FindAllString(text, -1)
+	var out []string
+	for i := 0; i < len(toks); i++ {
+		out = append(out, toks[i])
+		opts := decorable[toks[i]]
+		if opts == "" || i+2 >= len(toks) || r.Intn(3) > 0 {
+			continue
+		}
+		// the statement is `kw arg ;` or `kw arg {` (input/output: `kw {`)
+		j := i + 1
+		if toks[j] != "{" && toks[j] != ";" {
+			out = append(out, toks[j])
+			j++
+		}
+		if j >= len(toks) || (toks[j] != "{" && toks[j] != ";") {
+			i = j - 1
+			continue
+		}
+		var dec []string
+		for n := 1 + r.Intn(3); n > 0; n-- {
+			dec = append(dec, decorations[opts[r.Intn(len(opts))]])
+		}
+		if toks[j] == ";" {
+			out = append(out, "{", strings.Join(dec, " "), "}")
+		} else {
+			out = append(out, "{", strings.Join(dec, " "))
+		}
+		i = j
+	}
+	return strings.Join(out, " ")
+}
+
 func walk(e *yang.Entry, f func(*yang.Entry), depth int) {
 	if e == nil || depth > 400 {
 		return
@@ -251,7 +292,25 @@ func Mutate(j *job.Job, s *job.Sink) {
 				}
 			}
 		}
+		// one time in six a module is present in two revisions, the older one keeping
+		// the original text (and so its imports, includes and uses)
+		if r.Intn(6) == 0 {
+			m := g.Mods[r.Intn(len(g.Mods))]
+			for k, mm := range g.Mods {
+				if mm == m {
+					m.Revs = []string{"2019-01-01"}
+					cd.Texts[k] = schema.Print(m)
+					m.Revs = []string{"2020-02-02"}
+					cd.Texts = append(cd.Texts, mutate(r, schema.Print(m), pool))
+					cd.Names = append(cd.Names, m.Name+"@2020-02-02.yang")
+					m.Revs = nil
+				}
+			}
+		}
 		for k := range cd.Texts {
+			if r.Intn(4) == 0 {
+				cd.Texts[k] = decorate(r, cd.Texts[k])
+			}
 			if r.Intn(2) == 0 {
 				cd.Texts[k] = mutate(r, cd.Texts[k], pool)
 			}
@@ -304,7 +363,22 @@ var hazards = []string{
 	`module m { %H extension e { argument a { yin-element true; } } m:e x { m:e y; } leaf l { type string { m:e z; q:r s; } } }`,
 }
 
+// revision and ownership layouts: several revisions of one name loaded together, with
+// the dependencies sitting in the older one; imports and includes by revision-date of
+// present and absent revisions; a module and a submodule sharing a name.
+var layoutHazards = []string{
+	`module m { %H revision 2019-01-01; include s; uses sg; } module m { %H revision 2020-01-01; leaf z { type string; } } submodule s { belongs-to m { prefix m; } grouping sg { leaf a { type %T; } } }`,
+	`module m { %H revision 2019-01-01; import n { prefix n; } container c { uses n:g; } leaf l { type n:t; } } module m { %H revision 2020-01-01; } module n { namespace "urn:n"; prefix n; typedef t { type string; } grouping g { leaf gl { type t; } } }`,
+	`module m { %H revision 2019-01-01; identity a; identity b { base a; } } module m { %H revision 2020-01-01; identity a; identity b { base a; } identity c { base b; } leaf l { type identityref { base a; } } } module u { namespace "urn:u"; prefix u; import m { prefix mm; revision-date %V; } identity d { base mm:a; } leaf l { type identityref { base mm:b; } } }`,
+	`module m { %H include s { revision-date %V; } uses sg; leaf l { type st; } } submodule s { belongs-to m { prefix m; } revision 2019-01-01; typedef st { type int8; } grouping sg { leaf old { type st; } } } submodule s { belongs-to m { prefix m; } revision 2020-01-01; typedef st { type string; } grouping sg { leaf new { type st; } } }`,
+	`module m { %H revision 2020-01-01; augment /x:c { leaf a { type string; } } import x { prefix x; } deviation /x:c/x:d { deviate %D; } } module m { %H revision 2021-01-01; import x { prefix x; } augment /x:c { leaf a { type string; } } } module x { namespace "urn:x"; prefix x; container c { leaf d { type string; } } }`,
+	`module m { %H include m; } submodule m { belongs-to m { prefix m; } leaf l { type %T; } }`,
+	`module m { %H revision 2020-01-01; import m { prefix self; revision-date 2019-01-01; } leaf l { type self:t; } } module m { %H revision 2019-01-01; typedef t { type string; } import m { prefix other; revision-date 2020-01-01; } }`,
+	`module m { %H revision 2019-01-01; include s; } module m { %H revision 2020-01-01; include s; } submodule s { belongs-to m { prefix m; } container sc { leaf a { type string; } } } module a { namespace "urn:a"; prefix a; import m { prefix m; revision-date %V; } augment /m:sc { leaf b { type string; } } }`,
+}
+
 var fill = map[string][]string{
+	"%V": {"2019-01-01", "2020-01-01", "2018-01-01", "2021-01-01"},
 	"%K": keywords,
 	"%H": {`namespace "urn:m"; prefix m;`, `namespace "urn:m"; prefix m; yang-version 1.1;`, `prefix m; namespace "";`},
 	"%T": {"string", "int8", "uint64", "decimal64", "enumeration", "bits", "union", "identityref", "leafref", "empty", "boolean", "binary", "instance-identifier", "nosuch", "m:t", "x:y", "\"\""},
@@ -321,10 +395,11 @@ func Hazards(j *job.Job, s *job.Sink) {
 		r := prng.For(j.Seed, "C01", "hazards", i)
 		cd := caseDesc{Family: "hazards"}
 		n := 1 + r.Intn(3)
+		all := append(append([]string{}, hazards...), layoutHazards...)
 		for k := 0; k < n; k++ {
-			t := hazards[int(i+int64(k)*7)%len(hazards)]
+			t := all[int(i+int64(k)*7)%len(all)]
 			if k > 0 {
-				t = hazards[r.Intn(len(hazards))]
+				t = all[r.Intn(len(all))]
 				t = strings.Replace(t, "module m ", fmt.Sprintf("module m%d ", k), 1)
 			}
 			for {
@@ -339,6 +414,9 @@ func Hazards(j *job.Job, s *job.Sink) {
 					continue
 				}
 				t = t[:ix] + opts[r.Intn(len(opts))] + t[ix+2:]
+			}
+			if r.Intn(2) == 0 {
+				t = decorate(r, t)
 			}
 			cd.Texts = append(cd.Texts, t)
 			cd.Names = append(cd.Names, fmt.Sprintf("h%d.yang", k))
